@@ -50,6 +50,8 @@ Lb(c) == LastNZ(EffB(c))
 Lm(c) == La(c) - 1
 Zero(c) == IF c.zero = "sym" THEN ZSym ELSE LZero(NS)
 
+\* a callable memory is called once, with the needed size
+MemAsked(c) == <<Lm(c)>>
 \* memory after the code's normalisation: None -> zeros; iterable/callable -> its first lm items
 MemInit(c) == [j \in 1..Lm(c) |-> IF c.mem = "none" THEN Zero(c) ELSE MSym(j)]
 
